@@ -243,6 +243,13 @@ def h_pow_kinds(ctx, which, D, P):
         n = int(which[len('pyint_exp'):])
         z = x ** n
         table = lambda x0: lib.d_powi(ctx, x0, D - 1, n=n)
+    elif which.startswith('intvalued_'):
+        # integer-valued exponents of non-integer type: exact repeated multiplication, any base
+        r, n = {'intvalued_pyfloat2': (2.0, 2), 'intvalued_npfloat3': (np.float64(3.0), 3), 'intvalued_float32_2': (np.float32(2.0), 2),
+                'intvalued_nd0int2': (np.array(2), 2), 'intvalued_nd0float4': (np.array(4.0), 4), 'intvalued_pyfloat6': (6.0, 6),
+                'intvalued_int8_3': (np.int8(3), 3), 'intvalued_uint8_2': (np.uint8(2), 2)}[which]
+        z = x ** r
+        table = lambda x0: lib.d_powi(ctx, x0, D - 1, n=n)
     elif which == 'negint_exp':
         z = x ** (-2)
         table = lambda x0: lib.d_powi(ctx, x0, D - 1, n=-2)
@@ -402,6 +409,7 @@ def units(tier, seed):
         add('utpm %s= utpm/(2,),(2,)/D17,P1' % op, 'h_binop', op=op, lkind='utpm', rkind='utpm', lshape=(2,), rshape=(2,), D=17, P=1, form='inplace')
     for which in ('uint8_base', 'int8_base', 'float32_base', 'float16_base', 'int16_base', 'bigint_base', 'pycomplex_exp', 'npcomplex_exp', 'npcomplex64_exp', 'nd0complex_exp', 'negbase_complex_poly', 'posbase_complex_poly'):
         add('pow/%s' % which, 'h_pow_kinds', which=which, D=D + 1, P=P)
-    for which in ('pyfloat_base', 'pyint_base', 'npfloat_exp', 'npint_exp', 'negint_exp', 'pyint_exp0', 'pyint_exp1', 'pyint_exp2', 'pyint_exp3', 'pyint_exp4', 'pyint_exp5', 'pyint_exp7'):
+    for which in ('pyfloat_base', 'pyint_base', 'npfloat_exp', 'npint_exp', 'negint_exp', 'pyint_exp0', 'pyint_exp1', 'pyint_exp2', 'pyint_exp3', 'pyint_exp4', 'pyint_exp5', 'pyint_exp7', 'pyint_exp6', 'pyint_exp9',
+                  'intvalued_pyfloat2', 'intvalued_npfloat3', 'intvalued_float32_2', 'intvalued_nd0int2', 'intvalued_nd0float4', 'intvalued_pyfloat6', 'intvalued_int8_3', 'intvalued_uint8_2'):
         add('pow/%s' % which, 'h_pow_kinds', which=which, D=D + 1, P=P)
     return out
